@@ -427,6 +427,13 @@ func (n *network) startEndpoint(i int, e *LEndpoint, clientCA *ca) *epState {
 		cfg.ClientCAs = pool
 	case "request":
 		cfg.ClientAuth = tls.RequestClientCert
+	case "request_hint_other":
+		// asks for a certificate without requiring or verifying one, and advertises only an unrelated CA as
+		// acceptable issuer: the RA must still present its configured certificate
+		cfg.ClientAuth = tls.RequestClientCert
+		pool := x509.NewCertPool()
+		pool.AddCert(newCA("unrelated-client-ca").cert)
+		cfg.ClientCAs = pool
 	}
 	ep := &epState{idx: i, spec: e, ln: bufconn.Listen(256 * 1024)}
 	ep.srv = grpc.NewServer(grpc.Creds(credentials.NewTLS(cfg)))
@@ -497,7 +504,7 @@ func execL(t *testing.T, raw json.RawMessage) *sim.Outcome {
 		}
 	})
 	if fail != "" {
-		o.Fail("harness.bubble", "bubble", 0, "%s", fail)
+		failBubble(o, fail)
 		return o
 	}
 	n.mu.Lock()
@@ -707,4 +714,14 @@ func checkBackoffs(t *testing.T, o *sim.Outcome, p *LPlan) {
 			}
 		}
 	})
+}
+
+// failBubble classifies the failure of a bubble: a deadlock (every goroutine of the simulated world blocked
+// for ever) means an operation of the code under test never completed.
+func failBubble(o *sim.Outcome, fail string) {
+	if strings.Contains(fail, "deadlock") {
+		o.Fail("any.stalled", "stalled", 0, "the simulated world came to a standstill: an operation never completed (%s)", fail)
+		return
+	}
+	o.Fail("harness.bubble", "bubble", 0, "%s", fail)
 }
